@@ -8,6 +8,7 @@ import (
 	"os"
 	"os/exec"
 	"runtime"
+	"strconv"
 	"strings"
 	"sync"
 	"sync/atomic"
@@ -23,7 +24,12 @@ import (
 // The REAL util.WorkerGroup / util.RunJobs run inside a testing/synctest bubble with
 // un-timed goroutines: 1..4 concurrent RunJobs callers, a stopper / canceller goroutine
 // that yields k times (runtime.Gosched) and then calls Stop() and/or cancels the callers'
-// contexts, job functions that return at once, yield, or block on their ctx.
+// contexts, job functions that return at once, yield, block on their ctx, HOLD (wait until
+// the harness releases them: whenever every goroutine is durably blocked the holding jobs
+// are released, so the workers are saturated wave after wave and the maximum number of job
+// functions running at once measures the group's real capacity), or PANIC (`panicAt`; the
+// worker recovers the panic into an error result; the panic value names the job so that the
+// error result is identified and exactly-once delivery is checked for it too).
 // synctest.Wait() returns when every goroutine of the bubble is durably blocked; a RunJobs
 // call that has not returned at that point can never return: an EXACT deadlock verdict.
 //
@@ -45,13 +51,14 @@ import (
 // that RunJobs submits in order and stops at the first refusal (see Spec/C14.lean).
 
 type c14Input struct {
-	Workers int    `json:"workers"`
-	Jobs    []int  `json:"jobs"`    // jobs per RunJobs caller (len = number of callers)
-	K       int    `json:"k"`       // scheduler yields of the stopper before it acts
-	Mode    string `json:"mode"`    // none | stop | cancel | both | stop-before | cancel-before | stop-after | cancel-after
-	JobKind string `json:"jobKind"` // plain | yield | block | mixed
-	Stagger []int  `json:"stagger"` // yields of caller i before it calls RunJobs
-	Salt    uint64 `json:"salt"`    // per-job choices for mixed/yield kinds
+	Workers int     `json:"workers"`
+	Jobs    []int   `json:"jobs"`    // jobs per RunJobs caller (len = number of callers)
+	K       int     `json:"k"`       // scheduler yields of the stopper before it acts
+	Mode    string  `json:"mode"`    // none | stop | cancel | both | stop-before | cancel-before | stop-after | cancel-after
+	JobKind string  `json:"jobKind"` // plain | yield | block | mixed | hold (non-panicking jobs)
+	PanicAt [][]int `json:"panicAt"` // per caller: indices of the jobs whose job function panics
+	Stagger []int   `json:"stagger"` // yields of caller i before it calls RunJobs
+	Salt    uint64  `json:"salt"`    // per-job choices for mixed/yield kinds
 }
 
 type c14Caller struct {
@@ -61,6 +68,8 @@ type c14Caller struct {
 	Started           []int `json:"started"`           // job indices for which the job function was invoked, in order
 	DeliveredAtReturn int   `json:"deliveredAtReturn"` // resFunc calls that had happened when RunJobs returned (-1: never returned)
 	Late              int   `json:"late"`              // resFunc calls after RunJobs returned
+	Panicked          []int `json:"panicked"`          // job indices whose job function panicked
+	ErrDelivered      []int `json:"errDelivered"`      // job indices delivered as the error result of a recovered panic (also in Delivered)
 }
 
 type c14Impl struct {
@@ -74,7 +83,12 @@ type c14Impl struct {
 	Panic      string      `json:"panic,omitempty"`
 }
 
-func c14Blocking(in c14Input, caller, job int) (yields int, block bool) {
+// c14Blocking: what a job function does before it returns (or panics): yield `yields` times, then
+// either return, or wait for its ctx (`block`), or wait until the harness releases it (`hold`:
+// every time all goroutines of the bubble are durably blocked the harness releases the jobs that
+// are holding, so the workers are saturated again and again and the maximum number of job
+// functions running at once is an exact observation of the group's real capacity).
+func c14Blocking(in c14Input, caller, job int) (yields int, block bool, hold bool) {
 	defer func() {
 		// a job that waits for a cancellation that never comes is not a defect of the worker group
 		if !c14WillRelease(in.Mode) {
@@ -87,23 +101,41 @@ func c14Blocking(in c14Input, caller, job int) (yields int, block bool) {
 	h ^= h >> 32
 	switch in.JobKind {
 	case "yield":
-		return int(h % 4), false
+		return int(h % 4), false, false
 	case "block":
-		return 0, true
+		return 0, true, false
+	case "hold":
+		return int(h % 3), false, true
 	case "mixed":
-		switch h % 4 {
+		switch h % 5 {
 		case 0:
-			return 0, false
+			return 0, false, false
 		case 1:
-			return int(h>>8) % 5, false
+			return int(h>>8) % 5, false, false
 		case 2:
-			return 0, true
+			return 0, true, false
+		case 3:
+			return 0, false, true
 		default:
-			return 1, false
+			return 1, false, false
 		}
 	}
-	return 0, false
+	return 0, false, false
 }
+
+func c14Panics(in c14Input, caller, job int) bool {
+	if caller >= len(in.PanicAt) {
+		return false
+	}
+	for _, p := range in.PanicAt[caller] {
+		if p == job {
+			return true
+		}
+	}
+	return false
+}
+
+const c14PanicTag = "c14job:"
 
 func c14WillRelease(mode string) bool {
 	switch mode {
@@ -155,9 +187,21 @@ func c14Run(t *testing.T, in c14Input, verdict func(c14Impl)) (impl c14Impl) {
 		delivered []int
 		anon      int
 		started   []int
+		panicked  []int
+		errDeliv  []int
 		returned  atomic.Bool
 		atReturn  int
 		late      int
+	}
+	// jobs that are holding, waiting to be released by the harness
+	var holdMu sync.Mutex
+	var holders []chan struct{}
+	takeHolders := func() []chan struct{} {
+		holdMu.Lock()
+		defer holdMu.Unlock()
+		hs := holders
+		holders = nil
+		return hs
 	}
 	cs := make([]*callerState, n)
 	for i := range cs {
@@ -169,7 +213,8 @@ func c14Run(t *testing.T, in c14Input, verdict func(c14Impl)) (impl c14Impl) {
 		for _, c := range cs {
 			c.mu.Lock()
 			cc := c14Caller{Returned: c.returned.Load(), Delivered: append([]int{}, c.delivered...), Anon: c.anon,
-				Started: append([]int{}, c.started...), DeliveredAtReturn: c.atReturn, Late: c.late}
+				Started: append([]int{}, c.started...), DeliveredAtReturn: c.atReturn, Late: c.late,
+				Panicked: append([]int{}, c.panicked...), ErrDelivered: append([]int{}, c.errDeliv...)}
 			c.mu.Unlock()
 			out.Callers = append(out.Callers, cc)
 			if !cc.Returned {
@@ -245,20 +290,51 @@ func c14Run(t *testing.T, in c14Input, verdict func(c14Impl)) (impl c14Impl) {
 						c.mu.Lock()
 						c.started = append(c.started, j-1)
 						c.mu.Unlock()
-						yields, block := c14Blocking(in, i, j-1)
+						yields, block, hold := c14Blocking(in, i, j-1)
 						for y := 0; y < yields; y++ {
 							runtime.Gosched()
+						}
+						if c14Panics(in, i, j-1) {
+							// recovered by the worker into an error result; the panic value names the job
+							c.mu.Lock()
+							c.panicked = append(c.panicked, j-1)
+							c.mu.Unlock()
+							panic(fmt.Sprintf("%s%d", c14PanicTag, j-1))
 						}
 						if block {
 							<-ctx.Done()
 							return j, ctx.Err()
+						}
+						if hold {
+							ch := make(chan struct{})
+							holdMu.Lock()
+							holders = append(holders, ch)
+							holdMu.Unlock()
+							select {
+							case <-ch:
+							case <-ctx.Done():
+							}
 						}
 						return j, nil
 					},
 					func(v int, err error) {
 						c.mu.Lock()
 						if v == 0 {
-							c.anon++
+							id := -1
+							if err != nil {
+								if k := strings.Index(err.Error(), c14PanicTag); k >= 0 {
+									if n, e := strconv.Atoi(err.Error()[k+len(c14PanicTag):]); e == nil {
+										id = n
+									}
+								}
+							}
+							if id >= 0 {
+								// the error result of a recovered panic, identified by the panic value
+								c.delivered = append(c.delivered, id)
+								c.errDeliv = append(c.errDeliv, id)
+							} else {
+								c.anon++
+							}
 						} else {
 							c.delivered = append(c.delivered, v-1)
 						}
@@ -281,7 +357,18 @@ func c14Run(t *testing.T, in c14Input, verdict func(c14Impl)) (impl c14Impl) {
 				inject(in.Mode)
 			}()
 		}
-		synctest.Wait()
+		for {
+			synctest.Wait()
+			// everything is durably blocked; jobs that are holding occupy their workers: release them
+			// (the next wave saturates the workers again) until no job is holding any more
+			hs := takeHolders()
+			if len(hs) == 0 {
+				break
+			}
+			for _, h := range hs {
+				close(h)
+			}
+		}
 		// every goroutine of the bubble is durably blocked: the verdict is exact
 		impl = snapshot("verdict")
 		if impl.Stuck && verdict != nil {
@@ -325,6 +412,15 @@ func c14Edge() []c14Input {
 		{Workers: 3, Jobs: []int{5, 5, 5, 5}, K: 20, Mode: "both", JobKind: "block"},
 		{Workers: 4, Jobs: []int{4, 5, 3}, Mode: "cancel-after", JobKind: "yield", Salt: 3},
 		{Workers: 2, Jobs: []int{0, 0, 0, 0}, K: 1, Mode: "stop", JobKind: "plain"},
+		// a job panics while another worker is busy, then more simultaneous work than workers
+		{Workers: 3, Jobs: []int{8}, Mode: "none", JobKind: "hold", PanicAt: [][]int{{1}}},
+		{Workers: 3, Jobs: []int{12}, Mode: "none", JobKind: "hold", PanicAt: [][]int{{4, 5}}},
+		{Workers: 4, Jobs: []int{7, 7}, Mode: "none", JobKind: "hold", PanicAt: [][]int{{0}, {2}}, Salt: 5},
+		{Workers: 8, Jobs: []int{40}, Mode: "none", JobKind: "hold", PanicAt: [][]int{{3, 9, 10, 25}}},
+		{Workers: 1, Jobs: []int{3}, Mode: "none", JobKind: "plain", PanicAt: [][]int{{0, 1, 2}}}, // every job panics
+		{Workers: 3, Jobs: []int{10, 10}, K: 30, Mode: "stop", JobKind: "hold", PanicAt: [][]int{{1}, {1, 2}}},
+		{Workers: 5, Jobs: []int{20}, K: 15, Mode: "cancel", JobKind: "mixed", PanicAt: [][]int{{0, 6}}, Salt: 11},
+		{Workers: 2, Jobs: []int{5}, Mode: "stop-after", JobKind: "yield", PanicAt: [][]int{{4}}, Salt: 2},
 	}
 }
 
@@ -400,20 +496,41 @@ func c14Gen(r *Rng, i int) c14Input {
 		in.K = 0
 	}
 	switch k := r.Intn(100); {
-	case k < 50:
+	case k < 38:
 		in.JobKind = "plain"
-	case k < 75:
+	case k < 58:
 		in.JobKind = "yield"
-	case k < 87:
+	case k < 70:
 		in.JobKind = "mixed"
-	default:
+	case k < 80:
 		in.JobKind = "block"
+	default:
+		in.JobKind = "hold"
 	}
 	if !c14WillRelease(in.Mode) && (in.JobKind == "block" || in.JobKind == "mixed") {
 		// a job that waits for a cancellation that never comes is not a defect of the worker group
 		in.JobKind = "yield"
 	}
 	in.Salt = r.U64() % 1_000_000
+	// panicking job functions: in a quarter of the cases (more often with holding jobs, where the
+	// workers are saturated after the panic), a chosen fraction of the jobs, early positions favoured
+	if r.Chance(25) || (in.JobKind == "hold" && r.Chance(50)) {
+		pct := []int{3, 10, 10, 25, 50, 100}[r.Intn(6)]
+		any := false
+		for c := range in.Jobs {
+			var at []int
+			for j := 0; j < in.Jobs[c]; j++ {
+				if r.Chance(pct) || (j <= 2 && r.Chance(20)) {
+					at = append(at, j)
+					any = true
+				}
+			}
+			in.PanicAt = append(in.PanicAt, at)
+		}
+		if !any {
+			in.PanicAt = nil
+		}
+	}
 	return in
 }
 
@@ -456,6 +573,12 @@ func c14Cases(t *testing.T) (cases []c14Case, dist map[string]int) {
 		}
 		dist["mode="+in.Mode]++
 		dist["kind="+in.JobKind]++
+		if len(in.PanicAt) > 0 {
+			dist["panics=yes"]++
+			if in.JobKind == "hold" || in.JobKind == "mixed" {
+				dist["panics+holding-jobs"]++
+			}
+		}
 		dist[fmt.Sprintf("callers=%d", len(in.Jobs))]++
 		dist[fmt.Sprintf("workers=%d", bucket(in.Workers))]++
 		dist[fmt.Sprintf("jobs=%d", bucket(tot))]++
